@@ -124,7 +124,9 @@ PlainTok == {"0", "1", "7", "9", "-", "+", "L"}
 EscTok   == {"e0", "e7", "eL", "sp", "mb", "sl", "pc"}
 \* escapes whose decoding is not UTF-8: ff = %FF, c3 = lone lead byte %C3
 BadTok   == {"ff", "c3"}
-BaseTok  == PlainTok \cup EscTok \cup BadTok
+\* an invalid escape `%GG`: RFC 3986 gives it no decoding; left verbatim or refused
+InvTok   == {"bz"}
+BaseTok  == PlainTok \cup EscTok \cup BadTok \cup InvTok
 SegTok   == BaseTok \cup LitTok
 
 \* abstract characters after percent-decoding.  "E" = the escaped letter, "U" = the multi-byte character,
@@ -132,12 +134,13 @@ SegTok   == BaseTok \cup LitTok
 TokChars(t) == IF t \in LitTok THEN LitTab[t]
                ELSE CASE t = "e0" -> <<"0">> [] t = "e7" -> <<"7">> [] t = "eL" -> <<"E">> [] t = "sp" -> <<" ">>
                       [] t = "mb" -> <<"U">> [] t = "sl" -> <<"/">> [] t = "pc" -> <<"%">>
-                      [] t = "ff" -> <<"R">> [] t = "c3" -> <<"R">>
+                      [] t = "ff" -> <<"R">> [] t = "c3" -> <<"R">> [] t = "bz" -> <<"%", "G", "G">>
                       [] OTHER -> <<t>>
 RECURSIVE SegChars(_)
 SegChars(toks) == IF toks = <<>> THEN <<>> ELSE TokChars(toks[1]) \o SegChars(Tail(toks))
 SegEsc(toks) == \E i \in 1..Len(toks) : toks[i] \in EscTok \cup BadTok
 SegBad(toks) == \E i \in 1..Len(toks) : toks[i] \in BadTok
+SegInvalid(toks) == \E i \in 1..Len(toks) : toks[i] \in InvTok
 
 (* ======================================================================= *)
 (* 4. results and outcomes                                                 *)
@@ -182,6 +185,7 @@ IntResults(ty, toks) ==
 StrResults(ty, toks) ==
   LET v == Ok(Val("str", SegChars(toks))) IN
   IF SegBad(toks) THEN {Fail, v}                       \* v has "R" for every bad escape
+  ELSE IF SegInvalid(toks) THEN {Fail, v}                  \* v has the invalid escape verbatim
   ELSE IF ty = "str" /\ SegEsc(toks) THEN {v, Fail}    \* a borrowed &str cannot hold a decoded segment: may be refused
   ELSE {v}
 
@@ -216,7 +220,7 @@ Deser(ty, pl) ==
 
 \* what the request carries for item `it`:  st in {"absent","empty","valid","invalid","may"}
 Carried(it, rq) ==
-  CASE it.x = "Query"  -> IF rq.q = "absent" THEN [st |-> "absent", v |-> ""] ELSE Deser(it.ty, rq.q)
+  CASE it.x = "Query"  -> IF rq.q \in {"absent", "emptyq"} THEN [st |-> "absent", v |-> ""] ELSE Deser(it.ty, rq.q)   \* emptyq: a bare `?`
     [] it.x = "Auth"   -> IF rq.auth = "absent" THEN [st |-> "absent", v |-> ""] ELSE [st |-> "valid", v |-> rq.auth]
     [] it.x = "MaxFwd" -> IF rq.mf = "absent" THEN [st |-> "absent", v |-> ""]
                           ELSE IF rq.mf = "valid" THEN [st |-> "valid", v |-> "n1"] ELSE [st |-> "invalid", v |-> ""]
@@ -298,7 +302,7 @@ ImplParam(ty, toks) ==
 ImplItemRaw(it, rq) ==
   LET c == Carried(it, rq)
       parsed == IF c.st = "valid" \/ c.st = "may" THEN [t |-> "ok", v |-> c.v] ELSE [t |-> "err", v |-> ""] IN
-  CASE it.x = "Query" -> IF rq.q = "absent" THEN [t |-> "err", v |-> ""] ELSE parsed     \* the empty query is parsed, too
+  CASE it.x = "Query" -> IF rq.q \in {"absent", "emptyq"} THEN [t |-> "err", v |-> ""] ELSE parsed     \* the empty query is parsed, too
     [] it.x \in HeaderX -> IF c.st = "absent" THEN [t |-> "none", v |-> ""] ELSE parsed
     [] OTHER -> IF rq.ct.mime = "none" THEN [t |-> "none", v |-> ""]
                 ELSE IF rq.ct.mime # it.x \/ rq.ct.var = "case" THEN [t |-> "none", v |-> ""]   \* starts_with(MIME_TYPE)
